@@ -285,7 +285,7 @@ func init() {
 	vf.Register(&vf.Check{
 		ID: "C09", Title: "EML parsing is total",
 		Run: func(r *vf.Run) {
-			r.SetRule("(a) every byte string of length <= 6 (thorough 7) over {a : SP CR LF ; = \" -} as whole input; (b) structure-aware mutants of 8 valid seeds (plain 8bit/QP/base64, alternative, mixed+attachment, mixed>related>alternative, two hand-written): every slot (header name, value, parameter name/value, boundary line, blank line, continuation) × 22 mutations — all single and all pairs of slot mutations (thorough: triples around Content-Type/Disposition); (c) for every seed and single mutant a reader failing at every offset (seeds) / 8 offsets (mutants), a one-byte reader, and the file entry point; (d) header-value grammars: every token string of length <= 4 (thorough 5) over an address alphabet {a @ b.example < > , : ; \" SP ( ) encoded-word} as From/To/Cc/Bcc/Reply-To/Content-ID value, over a media-type alphabet as Content-Type/-Transfer-Encoding/-Disposition value (top level and inside a multipart part), over a date alphabet as Date value; (e) size and depth sweeps: 16 structural elements (semicolons / parameters / RFC 2231 continuations in a header, nested multiparts closed and unclosed, parts, alternatives, continuation lines, header length, recipients, boundary length, header count, base64 / QP body lines, encoded-words) each repeated N times for N = 0..40, 63..65, 100, 127..129, 255..257, 1000, 1024, 4095..4097 (thorough: up to 100000); oracle: the call returns (no panic) within the watchdog; distinct by input bytes and mode; (f) 45 header-field names (standard and common extension fields, whether or not the parser looks at them) × 31 numeric and degenerate values around the integer boundaries, at the top level and inside multipart parts, through EMLToMsgFromReader / FromString / FromFile")
+			r.SetRule("(a) every byte string of length <= 6 (thorough 7) over {a : SP CR LF ; = \" -} as whole input; (b) structure-aware mutants of 8 valid seeds (plain 8bit/QP/base64, alternative, mixed+attachment, mixed>related>alternative, two hand-written): every slot (header name, value, parameter name/value, boundary line, blank line, continuation) × 22 mutations — all single and all pairs of slot mutations (thorough: triples around Content-Type/Disposition); (c) for every seed and single mutant a reader failing at every offset (seeds) / 8 offsets (mutants), a one-byte reader, and the file entry point; (d) header-value grammars: every token string of length <= 4 (thorough 5) over an address alphabet {a @ b.example < > , : ; \" SP ( ) encoded-word} as From/To/Cc/Bcc/Reply-To/Content-ID value, over a media-type alphabet as Content-Type/-Transfer-Encoding/-Disposition value (top level and inside a multipart part), over a date alphabet as Date value; (e) size and depth sweeps: 16 structural elements (semicolons / parameters / RFC 2231 continuations in a header, nested multiparts closed and unclosed, parts, alternatives, continuation lines, header length, recipients, boundary length, header count, base64 / QP body lines, encoded-words) each repeated N times for N = 0..40, 63..65, 100, 127..129, 255..257, 1000, 1024, 4095..4097 (thorough: up to 100000); oracle: the call returns (no panic) within the watchdog; distinct by input bytes and mode; (f) 45 header-field names (standard and common extension fields, whether or not the parser looks at them) × 31 numeric and degenerate values around the integer boundaries, at the top level and inside multipart parts, through EMLToMsgFromReader / FromString / FromFile; (g) RFC 2047 encoded-words with 35 charset labels (implemented, registered but unimplemented, unknown, empty) × encodings {q, B, invalid} in file names, subject, display name, description and Content-ID")
 			r.Assume("termination is decided by a 30 s per-case watchdog (a bound, not a proof)")
 			dir := filepath.Join(os.Getenv("VERIF_WORK"), fmt.Sprintf("c09-%d", os.Getpid()))
 			_ = os.MkdirAll(dir, 0o755)
@@ -565,6 +565,45 @@ func init() {
 					r.Transition(vf.Hash("nh", c.n), c.v, vf.Hash("nh-done", c.n))
 				})
 				r.Extra("numeric_header_inputs", len(cases)*6)
+			}
+			// (g) RFC 2047 encoded-words with many charset labels (registered, unregistered, unimplemented, empty, odd case)
+			// wherever the parser decodes them: file names, subject, display names, descriptions
+			{
+				charsets := []string{"utf-8", "UTF-8", "us-ascii", "iso-8859-1", "iso-8859-15", "windows-1252", "koi8-r", "gb2312", "gbk", "gb18030", "big5", "shift_jis", "euc-jp", "iso-2022-jp", "iso-2022-kr",
+					"euc-kr", "utf-7", "utf-16", "utf-16le", "utf-32", "ucs-2", "ibm437", "macintosh", "tis-620", "hz-gb-2312", "x-unknown", "unknown-8bit", "", "utf8", "latin1", "cp1252", "iso-10646-ucs-2", "bocu-1", "scsu", "x-user-defined"}
+				type cw struct{ cs, enc string }
+				var cases []cw
+				for _, cs := range charsets {
+					for _, enc := range []string{"q", "B", "x"} {
+						cases = append(cases, cw{cs, enc})
+					}
+				}
+				r.Parallel(len(cases), "C09 encoded-word charsets", func(i int) {
+					s := newSlot()
+					c := cases[i]
+					text := "Gr=FC=DFe"
+					if c.enc == "B" {
+						text = "R3L832U="
+					}
+					w := "=?" + c.cs + "?" + c.enc + "?" + text + "?="
+					// the word stands in exactly one place per input (an early failure must not hide the later places), and in all at once
+					for pos := 0; pos <= 7; pos++ {
+						at := func(p int, plain string) string {
+							if pos == p || pos == 7 {
+								return w
+							}
+							return plain
+						}
+						in := []byte("Date: Mon, 02 Jan 2006 15:04:05 -0700\r\nFrom: " + at(0, "Name") + " <a@b.example>\r\nTo: c@d.example\r\nSubject: " + at(1, "subject") + "\r\nContent-Type: multipart/mixed; boundary=xyz\r\n\r\n--xyz\r\nContent-Type: text/plain; charset=utf-8\r\nContent-Description: " + at(2, "description") +
+							"\r\n\r\nbody\r\n--xyz\r\nContent-Type: application/octet-stream; name=\"" + at(3, "a.bin") + "\"\r\nContent-Disposition: attachment; filename=\"" + at(4, "a.bin") + "\"\r\nContent-Transfer-Encoding: base64\r\n\r\ncmF3\r\n--xyz\r\nContent-Type: image/png\r\nContent-Disposition: inline; filename=" + at(5, "e.png") +
+							"\r\nContent-ID: <" + at(6, "cid@x") + ">\r\nContent-Transfer-Encoding: base64\r\n\r\ncmF3\r\n--xyz--\r\n")
+						for _, mode := range []int{0, 1, 4} {
+							exec(s, c09Case{Input: in, Mode: mode, What: fmt.Sprintf("encoded-word-charset/%s/%s/pos=%d", c.cs, c.enc, pos)})
+						}
+					}
+					r.Transition(vf.Hash("ewc", c.cs), c.enc, vf.Hash("ewc-done", c.cs))
+				})
+				r.Extra("encoded_word_charset_inputs", len(cases)*24)
 			}
 			// (e) size and depth sweeps: one structural element repeated N times, N = 0..40 and powers beyond
 			{
